@@ -167,6 +167,17 @@ def rand_tx(rng, kind=None, chain=None, small=False):
         f["chainId"] = (rng.choice([0, 1, 137, 1 << 32, (1 << 64) - 1, 1 << 64, U256_MAX, rng.randrange(1 << 20)])
                         if chain is None or chain == "none" else chain)
         f["accessList"] = rand_access_list(rng)
+        # entries that coincide with other parts of the transaction: the recipient itself (with and without keys), an
+        # address or a key listed twice, the zero address, a key equal to the padded recipient
+        al = f["accessList"]
+        r = rng.random()
+        if f["to"] is not None and r < 0.3:
+            al.insert(rng.randrange(len(al) + 1), (f["to"], [] if rng.random() < 0.6 else [bytes(12) + f["to"]]))
+        elif al and r < 0.45:
+            a, ks = rng.choice(al)
+            al.insert(rng.randrange(len(al) + 1), (a, list(ks)))
+        elif r < 0.55:
+            al.append((bytes(20), [bytes(32), bytes(32)] if rng.random() < 0.5 else []))
         if kind == 1:
             f["gasPrice"] = num()
         else:
